@@ -300,16 +300,18 @@ def print_axioms(run, names):
     return res, txt
 
 def failing_theorems(build_log):
-    rel = os.path.relpath(PROPS_FILE, LEAN_DIR)
-    lines = [int(x) for m in re.findall(re.escape(rel) + r':(\d+):\d+: error|error: ' + re.escape(rel) + r':(\d+)', build_log) for x in m if x]
-    try: src = open(PROPS_FILE).read().splitlines()
-    except OSError: return []
+    """map every `error: <file>.lean:LINE` of the build log to the enclosing theorem of that file
+    (property theorems of Props/C07.lean by name; lemmas as Lemmas/<file>:<name>, every property theorem depends on them)"""
     names = []
-    for ln in lines:
+    for m in re.finditer(r'(XrlParser/[\w/]+\.lean):(\d+):\d+', build_log):
+        rel, ln = m.group(1), int(m.group(2))
+        try: src = open(os.path.join(LEAN_DIR, rel)).read().splitlines()
+        except OSError: continue
         for i in range(min(ln, len(src)) - 1, -1, -1):
-            m = re.match(r'\s*theorem\s+([\w\.\']+)', src[i])
-            if m:
-                if m.group(1) not in names: names.append(m.group(1))
+            mm = re.match(r'\s*theorem\s+([\w\.\']+)', src[i])
+            if mm:
+                n = mm.group(1) if rel.endswith('Props/C07.lean') else '%s:%s' % (rel[len('XrlParser/'):-5], mm.group(1))
+                if n not in names: names.append(n)
                 break
     return names
 
